@@ -37,6 +37,22 @@ def infer_redirection(url, recursive=True):
         string: Redirected url or the original url if nothing was found.
     """
 
+    # NOTE: this is a loop, not a recursion, because a url can nest more
+    # redirections than the interpreter allows recursive calls
+    while True:
+        target = infer_redirection_once(url)
+
+        if target == url or not recursive:
+            return target
+
+        url = target
+
+
+def infer_redirection_once(url):
+    """
+    Function resolving a single redirection hint of the given url, if any.
+    """
+
     redirection_split = REDIRECTION_DOMAINS_RE.split(url, 1)
 
     target = None
@@ -85,8 +101,5 @@ def infer_redirection(url, recursive=True):
     # again (e.g. in the authority, for a relative target) and we would never stop.
     if target is None or len(target) >= len(url):
         return url
-
-    if recursive:
-        return infer_redirection(target, recursive=True)
 
     return target
